@@ -19,7 +19,32 @@ pub fn enforce_of(e: u8) -> ReplacementEnforce {
 
 /// MapSpec -> SourceMap; the mappings string is written by the harness's own
 /// encoder, every segment as given.
+/// A SourceMap value for the spec.  One map in three (chosen by a pure function of the content, so every build of a Spec
+/// takes the same route) is *parsed* - `SourceMap::from_json` of a document written by serde_json, the way maps written
+/// by other tools arrive - instead of being assembled with `SourceMap::new` and the setters.
 pub fn source_map(m: &MapSpec) -> SourceMap {
+  let route = m.segs.len() * 7 + m.sources.len() * 3 + m.names.len() + m.root.as_ref().map_or(0, |r| 1 + r.len());
+  if route % 3 == 0 {
+    let mut doc = serde_json::Map::new();
+    doc.insert("version".into(), 3.into());
+    if let Some(f) = &m.file {
+      doc.insert("file".into(), f.clone().into());
+    }
+    if let Some(r) = &m.root {
+      doc.insert("sourceRoot".into(), r.clone().into());
+    }
+    doc.insert("sources".into(), m.sources.clone().into());
+    if !m.contents.is_empty() {
+      doc.insert("sourcesContent".into(), m.contents.clone().into());
+    }
+    doc.insert("names".into(), m.names.clone().into());
+    doc.insert("mappings".into(), vlq::encode(&m.segs).into());
+    if let Some(d) = &m.debug_id {
+      doc.insert("debugId".into(), d.clone().into());
+    }
+    let text = serde_json::Value::Object(doc).to_string();
+    return SourceMap::from_json(&text).expect("a version-3 document written by serde_json parses");
+  }
   let mut sm = SourceMap::new(
     vlq::encode(&m.segs),
     m.sources.clone(),
